@@ -25,6 +25,22 @@ Proof. exact rep_j1_mid'. Qed.
 Theorem C14_j2_series_derivative : forall t0 v x, Rep1 t0 v x -> Rep1 t0 (fun t => j2_series (T:=R) (v t)) (j2_series x).
 Proof. exact rep_j2_series. Qed.
 
+(* the functions themselves, on the open ranges between the switch points: value and derivative of the real function the code computes *)
+Theorem C14_j0_derivative_mid : forall t0 v x, Rep1 t0 v x -> lk (T:=R) L_bessel_j0 1 < v t0 < lk (T:=R) L_bessel_j0 0 ->
+  Rep1 t0 (fun t => bessel_j0 (T:=R) (v t)) (bessel_j0 x).
+Proof. exact j0_derivative_mid. Qed.
+Theorem C14_j0_derivative_outer : forall t0 v x, Rep1 t0 v x -> lk (T:=R) L_bessel_j0 0 < v t0 ->
+  Rep1 t0 (fun t => bessel_j0 (T:=R) (v t)) (bessel_j0 x).
+Proof. exact j0_derivative_outer. Qed.
+Theorem C14_j1_derivative_mid : forall t0 v x, Rep1 t0 v x -> Rabs (v t0) < lk (T:=R) L_bessel_j1 0 ->
+  Rep1 t0 (fun t => bessel_j1 (T:=R) (v t)) (bessel_j1 x).
+Proof. exact j1_derivative_mid. Qed.
+Theorem C14_j2_derivative_small : forall t0 v x, Rep1 t0 v x -> Rabs (v t0) < lk (T:=R) L_bessel_j2 0 ->
+  Rep1 t0 (fun t => bessel_j2 (T:=R) (v t)) (bessel_j2 x).
+Proof. exact j2_derivative_small. Qed.
+Theorem C14_switch_points : lk (T:=R) L_bessel_j0 1 = 1 / 100000 /\ lk (T:=R) L_bessel_j0 0 = 5 /\ lk (T:=R) L_bessel_j1 0 = 5 /\ lk (T:=R) L_bessel_j2 0 = 1 / 4.
+Proof. exact (conj (proj1 lits_j0) (conj (proj2 lits_j0) (conj lits_j1 lits_j2))). Qed.
+
 (* the denominators never vanish on the ranges where they are used *)
 Theorem C14_denominators_positive : forall z : R, 0 <= z ->
   0 < p1evl (T:=R) z B_RQ0 /\ 0 < polevl (T:=R) z B_PQ0 /\ 0 < p1evl (T:=R) z B_QQ0 /\
@@ -55,5 +71,5 @@ Example C14_example : Rep1 2 (fun t => t) (mkDual 2 1) /\ lk (T:=R) L_bessel_j0 
 Proof. exact example_c14. Qed.
 
 Definition C14_bundle := (C14_polevl_spec, C14_p1evl_spec, C14_j0_small_derivative, C14_j0_mid_derivative, C14_j0_asym_derivative,
-  C14_j1_mid_derivative, C14_j2_series_derivative, C14_denominators_positive, C14_j0_branches, C14_j2_branches, C14_j0_even, C14_j1_odd, C14_j2_even).
+  C14_j1_mid_derivative, C14_j2_series_derivative, C14_j0_derivative_mid, C14_j0_derivative_outer, C14_j1_derivative_mid, C14_j2_derivative_small, C14_switch_points, C14_denominators_positive, C14_j0_branches, C14_j2_branches, C14_j0_even, C14_j1_odd, C14_j2_even).
 Print Assumptions C14_bundle.
